@@ -1,4 +1,5 @@
 import TinyFlux.Audit.Tool
 import TinyFlux.Props.C01
 import TinyFlux.Props.C01State
+import TinyFlux.Props.C01Witness
 #audit TinyFlux.Props.C01
